@@ -25,7 +25,15 @@ def build_lf(case):
     # keep the requested row order
     aln = aln.take_seqs([n for n, _ in case["aln"]])
     bins = case.get("bins")
-    if bins:
+    if case["model"].startswith("DINUC:"):
+        # a reversible dinucleotide model (no named one is shipped): kappa on transitions, one of the three motif-prob models
+        from cogent3.evolve.predicate import MotifChange
+        from cogent3.evolve.substitution_model import TimeReversibleDinucleotide
+
+        sm = TimeReversibleDinucleotide(predicates={"kappa": MotifChange("A", "G") | MotifChange("C", "T")},
+                                        mprob_model=case["model"].split(":")[1], name="dinuc", recode_gaps=True)
+        lf = sm.make_likelihood_function(tree)
+    elif bins:
         sm = get_model(case["model"], ordered_param="rate", distribution="gamma")
         lf = sm.make_likelihood_function(tree, bins=bins["n"])
     else:
